@@ -92,6 +92,7 @@ type Machine struct {
 	Discharged int
 	Inconcl    int
 	Cex        *Cex
+	Witness    *Cex
 	StubsHit   map[string]bool
 	FuncsSeen  map[*ssa.Function]bool
 	Notes      []string
